@@ -83,7 +83,7 @@ func (s *scen) t2jMessage() []byte {
 	}
 	v := tbin.Struct()
 	if s.nested.outerState == 2 {
-		v.Fs = append(v.Fs, tbin.F(outerID, wrapVal(s.message(), s.nested.wrap)))
+		v.Fs = append(v.Fs, tbin.F(outerID, wrapVal2(s.fullMessage(), s.message(), s.nested.wrap)))
 	}
 	v.Fs = append(v.Fs, tbin.F(tailID, tbin.I32v(42)))
 	return tbin.Bytes(v)
